@@ -4,8 +4,13 @@ import (
 	"encoding/json"
 	"fmt"
 	"math/rand"
+	"net"
 	"path/filepath"
 	"time"
+
+	"github.com/pegnet/pegnetd/config"
+	"github.com/pegnet/pegnetd/srv"
+	"github.com/spf13/viper"
 
 	"verif/lab/forge"
 	"verif/lab/gen"
@@ -26,6 +31,7 @@ type c01ReplicaParams struct {
 	Replica  int    `json:"replica"`
 	DelayUS  int    `json:"delay_us"`
 	RowsFile string `json:"rows_file"`
+	API      bool   `json:"api"` // this replica answers read-only API requests between blocks
 }
 
 func init() {
@@ -43,14 +49,17 @@ func c01Forge(j *orch.Job, r *orch.Result) error {
 	json.Unmarshal(j.Params, &p)
 	e := c01Eras(p.Seed)
 	upto := SecondSnapshot(e) + 3
-	if upto < e.PIP10+8 {
-		upto = e.PIP10 + 8
+	if upto < e.PIP10+34 {
+		upto = e.PIP10 + 34
 	}
 	_, meta, final, err := ForgeChain(ForgeOpts{Profile: "ties", Seed: p.Seed, Eras: e, Upto: upto, ShortAvg: 12, Ties: false, Dir: p.Dir, KeepDB: true,
 		Customize: func(m *gen.Mixed) {
 			ts := gen.AddTies(m, p.Seed)
 			// the whale leaves before 2.0 so that the tied group is the TOP stake (the dust recipient is decided among ties)
 			featWhaleExit(m, ts, &modelParams{Seed: p.Seed})
+			// an asset whose average is unavailable for a while after PIP-10, with conversions into it waiting:
+			// what the daemon keeps in memory between two blocks (rolling averages) then decides ledger entries
+			featAvgUnavailable(m, ts, &modelParams{Seed: p.Seed})
 		}})
 	if err != nil {
 		return err
@@ -125,7 +134,51 @@ func c01Replica(j *orch.Job, r *orch.Result) error {
 	if err != nil {
 		return err
 	}
-	res, err := Replay(c, ReplayOpts{DBPath: filepath.Join(j.Dir, "db"), ShortAvg: 12, EntryDelayUS: p.DelayUS, DelaySeed: int64(p.Replica), KeepRows: true, Watchdog: 400 * time.Second})
+	ro := ReplayOpts{DBPath: filepath.Join(j.Dir, "db"), ShortAvg: 12, EntryDelayUS: p.DelayUS, DelaySeed: int64(p.Replica), KeepRows: true, Watchdog: 400 * time.Second}
+	if p.API {
+		// this replica also answers read requests between blocks (one at a time, never during a block): the
+		// ledger is a function of the chain, not of who asked the daemon what
+		port := freePort()
+		conf := viper.New()
+		conf.Set(config.APIListen, fmt.Sprintf("127.0.0.1:%d", port))
+		var started bool
+		ro.OnNode = func(n *harness.Node) {
+			if started {
+				return
+			}
+			started = true
+			stop := make(chan struct{})
+			srv.NewAPIServer(conf, n.P).Start(stop)
+			for i := 0; i < 200; i++ {
+				if cn, err := net.Dial("tcp", fmt.Sprintf("127.0.0.1:%d", port)); err == nil {
+					cn.Close()
+					break
+				}
+				time.Sleep(5 * time.Millisecond)
+			}
+		}
+		qs := []apiQuery{
+			{"rich-list", "get-rich-list", map[string]interface{}{"asset": "PEG", "count": 5}},
+			{"rich-list", "get-rich-list", map[string]interface{}{"asset": "pXBT", "count": 5}},
+			{"rich-list", "get-rich-list", map[string]interface{}{"asset": "pUSD", "count": 5}},
+			{"global-rich-list", "get-global-rich-list", map[string]interface{}{"count": 5}},
+			{"issuance", "get-pegnet-issuance", nil},
+			{"rates", "get-pegnet-rates", map[string]interface{}{}},
+			{"sync-status", "get-sync-status", nil},
+		}
+		ro.AtHeight = func(n *harness.Node, h uint32) error {
+			if h < c.Eras.TxConv {
+				return nil
+			}
+			for _, q := range qs {
+				if _, err := callAPI(port, q); err == nil {
+					r.Count("api_requests_between_blocks", 1)
+				}
+			}
+			return nil
+		}
+	}
+	res, err := Replay(c, ro)
 	if err != nil {
 		return err
 	}
@@ -143,6 +196,7 @@ func checkC01(c *Ctx) *orch.Outcome {
 		"(plus oversubscribed bank rows and >100-entry blocks, counted separately). Distinct = (chain seed, replica configuration)."
 	o.Assumptions = []string{
 		"schedules and hash seeds are sampled (fresh processes, GOMAXPROCS 1/2/16, randomized upstream response delays, TZ), not enumerated",
+		"every third replica also answers read-only API requests (rich lists, issuance, rates, sync status) between blocks, one at a time",
 		"averaging window shortened to 12 blocks (node.AveragePeriod) so that PIP-10 conversions execute in compressed chains",
 		"era heights compressed (order and equalities of mainnet kept)",
 	}
@@ -182,7 +236,7 @@ func checkC01(c *Ctx) *orch.Outcome {
 			if k%2 == 1 {
 				delay = 300 + 200*k
 			}
-			pj, _ := json.Marshal(c01ReplicaParams{Dir: ch.dir, Replica: k, DelayUS: delay, RowsFile: filepath.Join(ch.dir, fmt.Sprintf("rows-%d.json", k))})
+			pj, _ := json.Marshal(c01ReplicaParams{Dir: ch.dir, Replica: k, DelayUS: delay, API: k%3 == 2, RowsFile: filepath.Join(ch.dir, fmt.Sprintf("rows-%d.json", k))})
 			job := orch.Job{Kind: "c01.replica", Name: fmt.Sprintf("c01-replica-%d-%d", ch.seed, k), Seed: ch.seed, Params: pj, Timeout: 1200,
 				Env: []string{"GOMAXPROCS=" + gmp[k%len(gmp)], "TZ=" + tzs[k%len(tzs)]}}
 			if k == nRep-1 {
